@@ -494,7 +494,7 @@ def require_cut(ctx, body, block, preds, key, what=""):
     edges = []
     ok = True
     for label, pred in preds:
-        gs = [g for g in gi.all_guards() if pred(g) and not is_tracing(g.macros)]
+        gs = [g for g in gi.all_guards() if not is_tracing(g.macros) and any(pred(x) for x in gi.implied(g))]
         if not gs:
             ctx.bad("%s|%s" % (key, label), "%s: no guard `%s` exists in %s" % (what, label, short(body.path)), body.where(block))
             ok = False
